@@ -72,6 +72,7 @@ class MI:
         self.deferred = []
         self.comp = []            # regions with a completion evaluation pending (backmp11: per entered state)
         self.epoch = 0            # configuration epoch (any external transition at or below this level)
+        self.epoch_seq = 0        # submission counter value at the last configuration change
         self.blocked_swallow = 0
         self.cg_seen = {}
         rows = list(m['table'])
@@ -150,7 +151,14 @@ class Acceptor:
                         if o.id == got.id and mi.processing:
                             tags.add('C04')
                             rule += '+reentrant'
-        raise Reject(tags, rule, expected, got.raw if got is not None else 'END', self.pos)
+        pend = []
+        for tag, root in self.inst.items():
+            for mi in root.all():
+                if mi.queue or mi.deferred or mi.comp:
+                    pend.append('%s:%s q=%s d=%s c=%s act=%s' % (tag, mi.name, mi.queue, mi.deferred, mi.comp, mi.active))
+        rej = Reject(tags, rule, expected, got.raw if got is not None else 'END', self.pos)
+        rej.pending = pend
+        raise rej
 
     def norm_ev(self, rec):
         ev = rec.ev
@@ -342,6 +350,7 @@ class Acceptor:
         if self.mp and src in ('direct',) and self.list_defers(mi, occ.typ, True):
             self.defer(mi, occ)
             self.hit('C05', ('list-defer', mi.name, tuple(mi.active), occ.typ))
+            self.early_defer = True      # backmp11 returns at once: the pool is not processed
             return DF
         res = self.step(mi, occ, src)
         self.post(mi, res, src)
@@ -349,6 +358,9 @@ class Acceptor:
 
     def defer(self, mi, occ):
         occ.offered_epoch = mi.epoch
+        if self.mp:
+            self.gseq += 1
+            occ.seq = self.gseq      # the pool keeps arrival order; a re-deferred occurrence is appended again
         mi.deferred.append(occ)
 
     # ------------------------------------------------------------------ one synchronous step
@@ -548,6 +560,7 @@ class Acceptor:
         x = mi
         while x:
             x.epoch += 1
+            x.epoch_seq = self.gseq
             x = x.parent
 
     def note_entered(self, mi, r, sn):
@@ -717,7 +730,7 @@ class Acceptor:
     def pending_ids(self, mi):
         return [o for o in mi.queue] + [o for o in mi.deferred]
 
-    def schedule(self, mi, after_handled=False, src='direct'):
+    def schedule(self, mi, after_handled=False, src='direct', allow_queue=True):
         """scheduling point of machine instance mi: completion first (C10), then pending occurrences in an
         order permitted by C04 / C05, chosen by the observed trace"""
         if mi.processing:
@@ -728,6 +741,19 @@ class Acceptor:
             guard += 1
             if guard > 10000:
                 self.reject({'HARNESS'}, 'scheduler-loop', 'progress')
+            if not allow_queue:
+                self.skip_completion_retries()
+                nxt = self.peek()
+                cand = self.next_pending(mi, nxt, allow_queue=False) if nxt is not None else None
+                if cand is None:
+                    return
+                kind, occ = cand
+                self.check_defer_order(mi, occ)
+                mi.deferred.remove(occ)
+                self.hit('C05', ('reoffer', mi.name, tuple(mi.active), occ.typ, len(mi.deferred)))
+                res = self.step(mi, occ, 'direct')
+                self.post_queued(mi, res)
+                continue
             # silently consumed occurrences: blocked machine swallows queued events
             if mi.queue and self.blocked(mi, mi.queue[0].typ):
                 self.hit('C11', ('swallow-queued', mi.queue[0].typ))
@@ -737,7 +763,9 @@ class Acceptor:
             # machine is not a direct call, so an unmatched event is not reported) is consumed in order
             if mi.queue and not self.mp and not self.visible(mi, mi.queue[0]):
                 self.hit('C04', ('invisible-dispatch', mi.name))
-                mi.queue.pop(0)
+                occ = mi.queue.pop(0)
+                res = self.step(mi, occ, self.src_of(mi, occ))     # emits no expectation; may defer the occurrence
+                self.post_queued(mi, res)
                 continue
             self.skip_completion_retries()
             nxt = self.peek()
@@ -772,9 +800,11 @@ class Acceptor:
 
     def visible(self, mi, occ):
         """would dispatching occ on mi leave at least one record?"""
-        if self.src_of(mi, occ) != 'sub':
-            return True           # at least no_transition
-        return self.has_candidates(mi, occ.typ)
+        if self.has_candidates(mi, occ.typ):
+            return True
+        if not self.mp and any(occ.typ in mi.m['states'][sn]['deferred'] for sn in mi.active):
+            return False          # moved to the deferred queue without any callback
+        return self.src_of(mi, occ) != 'sub'     # direct calls report no_transition
 
     def has_candidates(self, mi, typ):
         for sn in mi.active:
@@ -791,14 +821,14 @@ class Acceptor:
     def post_queued(self, mi, res):
         self.completion_round(mi)
 
-    def next_pending(self, mi, nxt):
+    def next_pending(self, mi, nxt, allow_queue=True):
         """which pending occurrence of mi does the next observed record dispatch (None: none of them)"""
         if nxt.k not in ('G', 'A', 'EN', 'EX', 'NT', 'XC'):
             return None
         if nxt.id < 0:
             return None
         lab = self.norm_ev(nxt)
-        for o in mi.queue:
+        for o in (mi.queue if allow_queue else []):
             if o.id == nxt.id and self.same_type(o.typ, lab):
                 if self.mp and self.list_defers(mi, o.typ, True):
                     continue
@@ -835,8 +865,8 @@ class Acceptor:
             if self.list_defers(mi, d.typ, self.mp):
                 continue
             if d.offered_epoch == mi.epoch:
-                continue
-            if d.eligible_at is not None and q.seq > d.eligible_at:
+                continue            # already re-offered (and deferred again) in this configuration
+            if q.seq > mi.epoch_seq:
                 self.reject({'C05'}, 'deferred-after-later-event', 'deferred %s before %s' % (d, q))
 
     def check_defer_order(self, mi, occ):
@@ -868,13 +898,12 @@ class Acceptor:
                 left = [o for o in mi.queue if not (self.mp and self.list_defers(mi, o.typ, True))]
                 if left and not self.blocked(mi, left[0].typ):
                     self.reject({'C04'}, 'queued-not-dispatched', 'empty queue on %s, has %s' % (mi.name, left))
-            if op in ('process', 'drain'):
+            if op in ('process', 'drain') or (op == 'drain1' and not self.mp):
                 for d in mi.deferred:
                     if self.list_defers(mi, d.typ, self.mp):
                         continue
                     if d.offered_epoch != mi.epoch and not self.blocked(mi, d.typ):
                         self.reject({'C05'}, 'deferred-not-reoffered', '%s re-offered on %s' % (d, mi.name))
-        self.mark_eligibility()
 
     # ------------------------------------------------------------------ snapshots
     def expected_levels(self, root):
@@ -947,6 +976,7 @@ class Acceptor:
         root = self.inst[tag]
         rc_expected = None
         was_blocked = False
+        was_early = False
         threw_before = self.counts.get('throws', 0)
         if op == 'start':
             self.start(root)
@@ -958,7 +988,10 @@ class Acceptor:
             was_blocked = bool(self.blocked(root, typ))
             xc_before = len(self.cov.get('C12', ()))
             self.nthrow = 0
+            self.early_defer = False
             res = self.submit(root, typ, int(id_), 'p')
+            if self.early_defer:
+                was_early = True
             rc_expected = res
         elif op == 'enqueue':
             typ, id_ = r.extra[2].split(':')
@@ -985,7 +1018,7 @@ class Acceptor:
             if (rc == 0) != (rc_expected == 0):
                 self.reject({'C06'}, 'zero-code', 'zero=%s' % (rc_expected == 0), nxt)
         self.threw = False
-        self.quiescent(root, op)
+        self.quiescent(root, 'blocked' if (rc_expected == 'blocked' or was_early) else op)
         nxt = self.peek()
         if nxt is not None and nxt.k == 'SNAP':
             self.take()
@@ -1036,6 +1069,8 @@ class Acceptor:
     def drain1(self, root):
         """single-step variants dispatch exactly the oldest pending occurrence (C04)"""
         self.completion_round(root)
+        if self.mp:
+            return self.drain1_mp(root)
         while root.queue:
             head = root.queue[0]
             if self.blocked(root, head.typ):
@@ -1049,6 +1084,12 @@ class Acceptor:
                 if not rest:
                     return
                 head = rest[0]
+            if not self.mp and not self.visible(root, head):
+                root.queue.remove(head)
+                res = self.step(root, head, self.src_of(root, head))
+                self.post_queued(root, res)
+                self.schedule(root, allow_queue=False)
+                return
             nxt = self.peek()
             cand = self.next_pending(root, nxt) if nxt is not None else None
             if cand is None:
@@ -1062,6 +1103,46 @@ class Acceptor:
             self.post_queued(root, res)
             if self.mp and res == DF:
                 continue            # "only deferred" does not count as a processed event
+            if not self.mp:
+                # back: the single event gets its full post-processing (deferred events are re-offered),
+                # only the message queue is left alone
+                self.schedule(root, allow_queue=False)
+            return
+
+
+    def drain1_mp(self, root):
+        """backmp11: one pool, arrival order; the step goes to the oldest occurrence the configuration does
+        not defer; an occurrence that is only deferred again does not count as the step"""
+        tried = set()
+        while True:
+            pool = sorted([o for o in root.queue + root.deferred if id(o) not in tried], key=lambda o: o.seq)
+            elig = [o for o in pool if not self.list_defers(root, o.typ, True)]
+            while elig and self.blocked(root, elig[0].typ):
+                o = elig.pop(0)
+                (root.queue if o in root.queue else root.deferred).remove(o)
+                return
+            if not elig:
+                return
+            head = elig[0]
+            nxt = self.peek()
+            cand = self.next_pending(root, nxt) if nxt is not None else None
+            if cand is None:
+                if not any(o in root.queue for o in elig):
+                    return          # only occurrences deferred in the current cycle are left
+                self.reject({'C04'}, 'single-step', 'dispatch of %s' % head)
+            kind, occ = cand
+            if kind == 'q':
+                # oldest queued occurrence; deferred occurrences ahead of it may be skipped when they were
+                # deferred in the current processing cycle (sequence counter of the pool)
+                self.check_fifo(root, occ)
+            else:
+                self.check_defer_order(root, occ)
+            (root.queue if kind == 'q' else root.deferred).remove(occ)
+            res = self.step(root, occ, 'queue')
+            self.post_queued(root, res)
+            if res == DF:
+                tried.add(id(occ))
+                continue
             return
 
 
